@@ -349,9 +349,13 @@ class Run:
                 fh.write(sol.to_smt2())
         model = None
         detail = ''
-        if fresh_ctx_check(sol, min(self.timeout_ms, 4000)) == 'unsat':
+        fr = fresh_ctx_check(sol, min(self.timeout_ms, 3000))
+        if fr == 'unsat':
             r = z3.unsat
             detail = 'fresh-context'
+        elif fr == 'unknown' and second_backend_unsat(sol, 6):
+            r = z3.unsat
+            detail = 'backend:z3-4.8.12'
         else:
             r = sol.check()
         if r == z3.sat:
